@@ -308,6 +308,27 @@ fn arg_tag(state: StateKind, arg: u16) -> u32 {
     }
 }
 
+/// run `f` from a destructor while this thread is unwinding from an unrelated panic; returns
+/// whether `f` itself panicked (its panic is caught inside the destructor)
+fn during_unwind<F: FnOnce()>(f: F) -> bool {
+    struct D<F: FnOnce()>(Option<F>, std::rc::Rc<std::cell::Cell<bool>>);
+    impl<F: FnOnce()> Drop for D<F> {
+        fn drop(&mut self) {
+            if let Some(f) = self.0.take() {
+                let r = catch_unwind(AssertUnwindSafe(f));
+                self.1.set(r.is_err());
+            }
+        }
+    }
+    let inner = std::rc::Rc::new(std::cell::Cell::new(false));
+    let i2 = inner.clone();
+    let _ = catch_unwind(AssertUnwindSafe(move || {
+        let _d = D(Some(f), i2);
+        std::panic::panic_any("unrelated panic");
+    }));
+    inner.get()
+}
+
 pub struct GuardOutcome {
     pub control_used_guard: bool,
     pub panicked: bool,
@@ -347,6 +368,22 @@ pub fn run_guard_case(c: &GuardCase) -> Result<GuardOutcome, String> {
             }
         }
         inspect::check_quiescent(&d, tags_of(c.state).0).map_err(|e| format!("after {} with a foreign guard: {}", c.entry, e))?;
+        // the same call issued from a destructor that runs while the thread unwinds from an
+        // unrelated panic: the rejection must not depend on the calling context
+        {
+            let m2 = build_state(c.state);
+            let before2 = snapshot(&unsafe { m2.verif_dump() })?;
+            let fg = foreign_owner.guard();
+            let (inner_panicked, foreign_uses, _) = watch_guard_uses(foreign_coll, || during_unwind(|| f(&m2, &fg, a)));
+            drop(fg);
+            if foreign_uses > 0 {
+                return Err(format!("{} called from a destructor during unwinding used a guard of a foreign collector for {} guarded load(s)/retirement(s) of the map (state {:?}, key {}); it {}", c.entry, foreign_uses, c.state, a, if inner_panicked { "panicked only afterwards" } else { "returned normally" }));
+            }
+            let d2 = unsafe { m2.verif_dump() };
+            if inner_panicked && snapshot(&d2)? != before2 {
+                return Err(format!("{} (called during unwinding) panicked on the foreign guard but changed the map", c.entry));
+            }
+        }
         // still usable
         let g = m.guard();
         m.insert(K::new(123_456), V::new(9), &g);
@@ -390,6 +427,16 @@ pub fn run_guard_case(c: &GuardCase) -> Result<GuardOutcome, String> {
             return Err(format!("{} panicked on the foreign guard but changed the set", c.entry));
         }
         inspect::check_quiescent(&d, tags_of(c.state).0).map_err(|e| format!("after {} with a foreign guard: {}", c.entry, e))?;
+        {
+            let s2 = build_set_state(c.state);
+            let o2 = mk_other();
+            let (fg, go) = (foreign_owner.guard(), o2.guard());
+            let (inner_panicked, foreign_uses, _) = watch_guard_uses(foreign_coll, || during_unwind(|| f(&s2, &o2, &fg, &go, a)));
+            drop((fg, go));
+            if foreign_uses > 0 {
+                return Err(format!("{} called from a destructor during unwinding used a guard of a foreign collector for {} guarded load(s)/retirement(s) (state {:?}, key {}); it {}", c.entry, foreign_uses, c.state, a, if inner_panicked { "panicked only afterwards" } else { "returned normally" }));
+            }
+        }
         return Ok(GuardOutcome { control_used_guard: used > 0, panicked: r.is_err() });
     }
     Err(format!("unknown entry point {:?}", c.entry))
